@@ -30,6 +30,9 @@ func genC11(r *h.Rng, tier string, idx int) *h.Plan {
 	p := &h.Plan{Cfg: map[string]interface{}{}}
 	p.Cfg["state"] = r.Pick([]string{"indexed", "linear"})
 	p.Cfg["ttl"] = r.Pick([]string{"forever", "forever", "never"})
+	// how the clients reach the engine: sys.System directly, the service
+	// layer's generic request map, or the HTTP handler (JSON bodies)
+	p.Cfg["via"] = r.Pick([]string{"sys", "sys", "service", "http"})
 	nc := r.Range(2, 6)
 	p.Cfg["clients"] = nc
 	p.Cfg["pct_depth"] = r.Range(0, 4)
@@ -83,8 +86,45 @@ func c11Engine(plan *h.Plan) (*hs.SvcEngine, *h.SimStorage) {
 	return e, store
 }
 
+// c11Do issues one client request the way the plan says (the reference run
+// of the same client alone uses the same way, so results stay comparable).
+func c11Do(e *hs.SvcEngine, via string, op h.Op) string {
+	switch via {
+	case "service", "http":
+		uri, params := c18Request(op)
+		var body string
+		if via == "service" {
+			m := map[string]interface{}{"uri": "/api" + uri}
+			for k, x := range params {
+				m[k] = h.Clone(x)
+			}
+			var err error
+			body, err = e.Request(h.NewCtx(h.Prot{}), m)
+			if err != nil {
+				return "ERR"
+			}
+		} else {
+			method, target, ctype, rb, ok := c18Render("json", "/api", uri, params)
+			if !ok {
+				return "ERR:render"
+			}
+			status, out := e.ServeHTTP(method, target, ctype, rb, 0)
+			if status != 200 {
+				return "ERR"
+			}
+			body = out
+		}
+		if pl := c18Payload(op, body); pl != "" {
+			return pl
+		}
+		return "ok"
+	}
+	return e.DoSys(h.NewCtx(h.Prot{}), opToReq(op))
+}
+
 func execC11(t *testing.T, plan *h.Plan, trace bool) *h.Result {
 	res := &h.Result{}
+	via := plan.CfgS("via", "sys")
 	h.Arm(90*time.Second, fmt.Sprintf("C11 run_seed=%d", plan.RunSeed))
 	defer h.Disarm()
 	nc := int(plan.CfgI("clients", 2))
@@ -106,7 +146,7 @@ func execC11(t *testing.T, plan *h.Plan, trace bool) *h.Result {
 		prep()
 		e, store := c11Engine(plan)
 		for _, op := range byClient[c] {
-			wantRes[c] = append(wantRes[c], e.DoSys(h.NewCtx(h.Prot{}), opToReq(op)))
+			wantRes[c] = append(wantRes[c], c11Do(e, via, op))
 		}
 		loc := fmt.Sprintf("own%d", c)
 		wantFinal[c] = e.DoSys(h.NewCtx(h.Prot{}), hs.Req{Op: "search", Loc: loc, J: map[string]interface{}{"k": "?v"}}) + " rules=" +
@@ -125,7 +165,7 @@ func execC11(t *testing.T, plan *h.Plan, trace bool) *h.Result {
 			}
 			clients[fmt.Sprintf("c%d", c)] = func() {
 				for _, op := range byClient[c] {
-					got[c] = append(got[c], e.DoSys(h.NewCtx(h.Prot{}), opToReq(op)))
+					got[c] = append(got[c], c11Do(e, via, op))
 				}
 			}
 		}
@@ -217,6 +257,9 @@ func genC17First(r *h.Rng, tier string, idx int) *h.Plan {
 	p.Cfg["preload"] = r.Range(0, 3)
 	p.Tape.Seed = r.U64()
 	p.Tape.MapOrder = "sorted"
+	// with existence checking the location was created by an earlier
+	// incarnation of the engine; the concurrent first requests meet a cold cache
+	p.Cfg["ce"] = r.Bool()
 	return p
 }
 
@@ -225,6 +268,7 @@ func execC17First(t *testing.T, plan *h.Plan, trace bool) *h.Result {
 	h.Arm(60*time.Second, fmt.Sprintf("C17 firstload run_seed=%d", plan.RunSeed))
 	defer h.Disarm()
 	nc := int(plan.CfgI("clients", 2))
+	loads0 := 0 // Storage.Load calls made before the concurrent phase (creation by the earlier incarnation)
 	run := func(tape simrt.Tape, tr bool) (simrt.Report, []string, []string, *h.SimStorage, *hs.SvcEngine) {
 		h.SeedProcess(plan.RunSeed)
 		ps := h.ResetParams()
@@ -239,10 +283,21 @@ func execC17First(t *testing.T, plan *h.Plan, trace bool) *h.Result {
 		if plan.CfgS("ttl", "forever") == "1h" {
 			ttl = time.Hour
 		}
-		e, err := hs.NewSvcEngine(hs.SvcConfig{State: plan.CfgS("state", "indexed"), TTL: ttl}, store, hs.NewSimCron(true))
+		ce, _ := plan.Cfg["ce"].(bool)
+		if ce {
+			e0, err := hs.NewSvcEngine(hs.SvcConfig{State: plan.CfgS("state", "indexed"), TTL: ttl, CheckExistence: true}, store, hs.NewSimCron(true))
+			if err != nil {
+				panic(err)
+			}
+			if r := e0.DoSys(h.NewCtx(h.Prot{}), hs.Req{Op: "create", Loc: "shared"}); r != "ok" {
+				panic("harness: cannot create the location: " + r)
+			}
+		}
+		e, err := hs.NewSvcEngine(hs.SvcConfig{State: plan.CfgS("state", "indexed"), TTL: ttl, CheckExistence: ce}, store, hs.NewSimCron(true))
 		if err != nil {
 			panic(err)
 		}
+		loads0 = store.Loads["shared"]
 		store.Yield = simrt.Yield
 		out := make([]string, nc)
 		clients := map[string]func(){}
@@ -296,7 +351,7 @@ func execC17First(t *testing.T, plan *h.Plan, trace bool) *h.Result {
 		viol("livelock", "scheduler", "step budget exhausted")
 		return res
 	}
-	if n := store.Loads["shared"]; n != 1 {
+	if n := store.Loads["shared"] - loads0; n != 1 {
 		viol("location-loaded-more-than-once", "loads", "%d concurrent first requests caused %d Storage.Load calls for the location (results %v)", nc, n, out)
 	}
 	// every acknowledged write is visible to a later request (one shared instance)
